@@ -284,7 +284,8 @@ class Ctx:
             if m:
                 starts.append((i, m.group(1) or f"example@{i}"))
         failed = []
-        for m in re.finditer(re.escape(rel) + r":(\d+):\d+", log):
+        errlines = "\n".join(l for l in log.splitlines() if "error" in l)
+        for m in re.finditer(re.escape(rel) + r":(\d+):\d+", errlines):
             ln = int(m.group(1))
             name = None
             for s, n in starts:
